@@ -40,6 +40,8 @@ LawClause ==
   LET c == case  o == Obs
       cc == ConformClause(c, Ref(c), o.ok, o.cls, o.v, o.heap)
   IN IF cc # "" THEN cc
+     ELSE IF ~ExecRegistryLog(o.log) THEN "foreign-registry"
+     ELSE IF RouteClause(log, o.log) # "" THEN RouteClause(log, o.log)
      ELSE IF HasStar(c.steps) THEN ""            \* atomicity / attach-last are stated for wildcard-free paths
      ELSE IF ~AttachLastLog(c, o.log) THEN "attach-last"
      ELSE IF FactoryCalls(o.log) > AbsentSegments(c) THEN "factory-count"
